@@ -1,10 +1,12 @@
 import os, sys
 sys.path.insert(0, os.path.dirname(os.path.dirname(os.path.abspath(__file__))))
-from srcgen import regen_src  # pre-build generator: pure Go functions -> Gen/SrcPure.v
+from srcgen import regen_src
+from srcreplay import replay_src  # translated source run in Coq vs the real outputs  # pre-build generator: pure Go functions -> Gen/SrcPure.v
 
 PROP = {
     "coq": ["C19", "C19s"],
     "pre": [regen_src],
+    "extra": [replay_src({'timing'})],
     "exhaustive": False,
     "rule": "timing: modbus.VerifSerialTimings(rate) (= newRTUTransport) against the extracted char_time/t35, one case per rate: "
             "every rate 1..30000 (the whole 3.5-character regime and the 19200 bps switch, incl. every rate 19100..19300), "
